@@ -150,6 +150,7 @@ pub fn report_to_result(sc: &Scenario, rep: RunReport, restarted_only: bool) -> 
     r.add("burst_operations", s.bursts);
     r.add("burst_calls_checked_against_history_free_sampler", s.burst_calls);
     r.add("bursts_longer_than_65536_calls", s.long_bursts);
+    r.add("reentrant_calls_made_from_inside_a_scalar_callback", s.nested_calls);
     r.add("points_steered_onto_comparison_boundaries", crate::c17::take_steered());
     r.add("restarts", s.restarts);
     r.add("restarts_published", s.restarts_published);
